@@ -93,12 +93,20 @@ def r08_2(ctx):
     tail = fns.get("data_state_simd_fast_path")
     if not tail:
         raise AnchorMissing("data_state_simd_fast_path")
-    ms = [x for x in _all_macros(tail["body"]) if x["path"] == "matches" and "*" in x["tokens"].split(",")[0]]
-    ctx.ob("R08.2", "scalar-tail-stop-set", len(ms) == 1 and _macro_bytes(ms[0]["tokens"]) == STOP, "scalar tail stops on %s" % (sorted(_macro_bytes(ms[0]["tokens"])) if ms else None))
+    # the scalar tail after the SIMD blocks: the bytes on which its loop stops, and the byte it counts as a line break, read from the
+    # normal form (whatever shape the loop has: matches!, a match with arms, an if chain)
+    from . import nfq as _nfq
+    key, pcs = _nfq.cells(ctx, "html_tokenizer_simd", "::data_state_simd_fast_path")
+    tested = set()
+    for pc in _nfq.feasible(pcs):
+        for g in pc["guards"]:
+            m = re.fullmatch(r"(.*\.as_bytes\(\)\.get\(.*\)\.0) matches ([0-9|]+)(#\d+)?", g)
+            if m:
+                tested |= {int(x) for x in m.group(2).split("|")}
+    stop_bytes = {ord(c) for c in STOP}
+    ctx.ob("R08.2", "scalar-tail-stop-set", tested - {10} == stop_bytes, "scalar tail stops on %s" % sorted(chr(b) for b in tested - {10}))
     n += 1
-    # newline counted in the tail: `if *c == b'\n' { n_newlines += 1 }`
-    txt = show_body(tail["body"])
-    ctx.ob("R08.2", "scalar-tail-counts-newline", "n_newlines" in txt, "tail increments n_newlines")
+    ctx.ob("R08.2", "scalar-tail-counts-newline", 10 in tested, "the tail tests for the line feed it counts")
     # Data arm: first-char pre-test and small_char_set both = STOP + LF (expanded view)
     T = ctx.tables("html")
     pre = None
